@@ -22,7 +22,7 @@ def rowPosOk (q : Nat) : Bool :=
     decide ((hi5 * 2 ^ 64 + lo5) * 2 ^ (bitlen (5 ^ q) - 128) ≤ 5 ^ q * 2 ^ (128 - bitlen (5 ^ q))) &&
     decide (5 ^ q * 2 ^ (128 - bitlen (5 ^ q)) < (hi5 * 2 ^ 64 + lo5 + 1) * 2 ^ (bitlen (5 ^ q) - 128)) &&
     decide (power (wrapI32 q) = 62 + q + bitlen (5 ^ q)) && decide (bitlen (5 ^ q) ≤ 716) &&
-    (decide (55 < q) || decide (bitlen (5 ^ q) ≤ 128))
+    (decide (55 < q) || decide (bitlen (5 ^ q) ≤ 128)) && (decide (q ≤ 55) || decide (129 ≤ bitlen (5 ^ q)))
   | none => false
 
 theorem rows_pos_all : ((List.range 281).map (· + 28)).all rowPosOk = true := by decide +kernel
@@ -33,7 +33,7 @@ theorem rows_pos (q : Nat) (h28 : 28 ≤ q) (h308 : q ≤ 308) :
       (hi5 * 2 ^ 64 + lo5) * 2 ^ (bitlen (5 ^ q) - 128) ≤ 5 ^ q * 2 ^ (128 - bitlen (5 ^ q)) ∧
       5 ^ q * 2 ^ (128 - bitlen (5 ^ q)) < (hi5 * 2 ^ 64 + lo5 + 1) * 2 ^ (bitlen (5 ^ q) - 128) ∧
       power (wrapI32 q) = 62 + q + bitlen (5 ^ q) ∧ bitlen (5 ^ q) ≤ 716 ∧
-      (q ≤ 55 → bitlen (5 ^ q) ≤ 128) := by
+      (q ≤ 55 → bitlen (5 ^ q) ≤ 128) ∧ (55 < q → 129 ≤ bitlen (5 ^ q)) := by
   have hall := rows_pos_all
   rw [List.all_eq_true] at hall
   have := hall q (by
@@ -45,8 +45,8 @@ theorem rows_pos (q : Nat) (h28 : 28 ≤ q) (h308 : q ≤ 308) :
     obtain ⟨hi5, lo5⟩ := r
     rw [hrow] at this
     simp only [Bool.and_eq_true, Bool.or_eq_true, decide_eq_true_eq] at this
-    obtain ⟨⟨⟨⟨⟨⟨⟨⟨h1, h2⟩, h3⟩, h4⟩, h5⟩, h6⟩, h7⟩, h8⟩, h9⟩ := this
-    exact ⟨hi5, lo5, rfl, h1, h2, h3, h4, h5, h6, h7, h8, fun h => by omega⟩
+    obtain ⟨⟨⟨⟨⟨⟨⟨⟨⟨h1, h2⟩, h3⟩, h4⟩, h5⟩, h6⟩, h7⟩, h8⟩, h9⟩, h10⟩ := this
+    exact ⟨hi5, lo5, rfl, h1, h2, h3, h4, h5, h6, h7, h8, fun h => by omega, fun h => by omega⟩
 
 theorem table_index (q : Int) (h1 : -342 ≤ q) (h2 : q ≤ 308) :
     asU64 (wrapI64 (q - Gen.Lemire.smallestPowerOfFive)) = (q + 342).toNat := by
